@@ -482,6 +482,9 @@ var (
 	clockIsExact bool
 )
 
+// ClockIsExact reports whether ClockExact was called.
+func ClockIsExact() bool { return clockIsExact }
+
 func ClockNow() int64 {
 	if clockIsExact {
 		return clockNow + time.Since(clockReal).Milliseconds()
@@ -500,7 +503,10 @@ func Native() bool { return true }
 
 // StubActive guards the native stub rewrites: false for a harness that carries the
 // `nostub` directive (it exercises the real function).
-func StubActive() bool { return os.Getenv("ZZVF_NOSTUB") == "" }
+func StubActive(fn string) bool {
+	v := os.Getenv("ZZVF_NOSTUB")
+	return v == "" || (v != "1" && !strings.Contains(fn, v))
+}
 
 // ---------- Fill / FillCount / AssertCarried (native twins) ----------
 
